@@ -15,6 +15,7 @@ func main() {
 	w := hx.NewWriter(o)
 	defer w.Close()
 	tdcx.Drive(w, o, "C09", func(s string) string { return "(KTdc " + s + ")" })
+	tdcx.StressReserve(w, o)
 	lazyx.Drive(w, o, func(s string) string { return "(KLazy " + s + ")" })
 	reusex.Drive(w, o, func(s string) string { return "(KReuse " + s + ")" })
 	poolx.DriveBursts(w, o, func(s string) string { return "(KBurst " + s + ")" })
